@@ -31,6 +31,14 @@ def gen_ws(rng):
             s['data'] = [x if x != 0 else 1.0 for x in s['data']]
             if rng.random() < 0.15:
                 s['data'] = [float(int(x)) for x in s['data']]
+    many_constants = rng.random() < 0.25
+    if many_constants:
+        # long parameter names, all held constant: the exported list of constant parameters becomes long (several text lines' worth)
+        for c in chans:
+            for s in c['samples']:
+                for m in s['modifiers']:
+                    if m['type'] in ('normsys', 'histosys') and not m['name'].startswith('long_systematic_uncertainty_name_'):
+                        m['name'] = 'long_systematic_uncertainty_name_' + m['name']
     mods = sorted({(m['name'], m['type']) for c in chans for s in c['samples'] for m in s['modifiers']})
     pars = []
     if any(t == 'lumi' for _, t in mods):
@@ -46,7 +54,7 @@ def gen_ws(rng):
             if n != 'mu' and rng.random() < 0.3: p['fixed'] = True
             pars.append(p)
     for n in sorted({n for n, t in mods if t in ('normsys', 'histosys')}):
-        if rng.random() < 0.3: pars.append({'name': n, 'fixed': True})
+        if rng.random() < 0.3 or many_constants: pars.append({'name': n, 'fixed': True})
     rng.shuffle(pars)
     meas = [{'name': 'meas', 'config': {'poi': 'mu', 'parameters': pars}}]
     if rng.random() < 0.4:
